@@ -27,7 +27,7 @@ CHECKS = {
 
 CHECKS["C05"] = dict(
     module="WALQueue",
-    technique="TLA+ model checking of the store-level queue model (TLC, kill between any two stores) + trace validation of the real pkg/queue: every mapped-page store observed, crash image after every store recovered by the real code, gated concurrent appenders",
+    technique="TLA+ model checking of the store-level queue model (TLC, kill between any two stores) + trace validation of the real pkg/queue: every mapped-page store observed, crash image after every store recovered by the real code, gated concurrent appenders + replay of TLC-generated behaviours (tlc -simulate on WALQueueGen) into the real queue",
     text=("The WALQueue module has one action per store into a memory-mapped page; TLC explores every interleaving of "
           "calls and a process kill between any two stores (4M states) and checks that every successfully appended, "
           "unacknowledged message reads back byte for byte from memory and from the durable image, with dense sequence "
@@ -35,7 +35,8 @@ CHECKS["C05"] = dict(
           "must be exactly the store the specification expects next; the directory image after every single store is "
           "materialised, reopened by the real code, appended to and compared with the model; concurrent appenders are "
           "interleaved by a seeded gate inside the append. Crash points and interleavings are what the property "
-          "quantifies over, so exhaustive exploration of the model plus store-exact conformance is the right level."),
+          "quantifies over, so exhaustive exploration of the model plus store-exact conformance is the right level."
+          " Leg R: API-call histories chosen by TLC from the store-level model (WALQueueGen; `small`: one byte per length unit with crash images of the prefix before the first close, `roll`: 32 MiB per unit so that the real 128 MiB pages roll over where the model's 4-unit pages do) are executed call by call against the real queue and validated like every other trace; drained-queue, boundary and failing-roll-over histories are scripted."),
     note=("Trusted: TLC, Json module, the page-factory wrapper and image materialiser (a kill keeps exactly the completed "
           "MAP_SHARED stores; no power loss / torn stores), xxhash payload comparison. Bounds: 2 threads, 2 groups, 3 "
           "appends, 1 kill in the model; real pages are 128MB so roll-over is exercised with 50-80MB messages."),
@@ -43,13 +44,14 @@ CHECKS["C05"] = dict(
 )
 CHECKS["C06"] = dict(
     module="WALQueue",
-    technique="TLA+ model checking (TLC) of consumer-group positions, Sync and GC + trace validation of long random API histories of the real FanOutQueue with full state projection after every call",
+    technique="TLA+ model checking (TLC) of consumer-group positions, Sync and GC + trace validation of long random API histories of the real FanOutQueue with full state projection after every call + replay of TLC-generated behaviours (WALQueueGen) into the real FanOutQueue",
     text=("Same module as C05: consume / ack / set-consumed / sync / gc / create / stop / reopen are actions with their "
           "stores; TLC checks acknowledged <= consumed <= appended, the queue-wide position moving only forward and never "
           "beyond the smallest group position at that moment, and readability of everything above it, over all histories "
           "within bounds. The real FanOutQueue is driven through seeded histories (3 groups, page roll-over, stop/reopen); "
           "after every call the full projection (positions of queue and groups, Get of every live sequence) must equal "
-          "the model state and every store must be the expected one."),
+          "the model state and every store must be the expected one."
+          " Leg R: histories of group operations chosen by TLC (create / failed creation / stop / consume / acknowledge / set-consumed / Sync / GC / close / reopen) are executed against the real fan-out queue; histories with acknowledged and appended positions in different index pages (262144 entries) and data pages are scripted."),
     note=("Trusted as C05. Explicit index resets: only the forward reset is modelled (the property excludes resets); "
           "operations of one history are sequential (the code serialises consume/ack on a group by its lock)."),
     ref="DESIGN.md section 7 C06",
@@ -91,7 +93,7 @@ CHECKS["C02"] = dict(
 
 CHECKS["C08"] = dict(
     module="Replication",
-    technique="TLA+ model checking of the transcribed replication handshake/round protocol under all fault placements (TLC, safety + resync liveness) + trace validation of the real remoteReplicator, partitions and queues driven step by step with injected faults",
+    technique="TLA+ model checking of the transcribed replication handshake/round protocol under all fault placements (TLC, safety + resync liveness) + trace validation of the real remoteReplicator, partitions and queues driven step by step with injected faults + replay of TLC-generated behaviours (tlc -simulate on ReplicationGen: the model chooses the fault placements) into the real replicator",
     text=("Replication.tla transcribes IsReady branch by branch, the follower's append-only-at-next-index rule and the "
           "leader's ack rule; TLC explores every placement of send/receive/RPC failures, follower restart, follower "
           "log loss, leader restart and GC (safety invariants PositionalEquality, NoHoles, AckImpliesAppended, "
@@ -100,7 +102,8 @@ CHECKS["C08"] = dict(
           "replica-loop iteration at a time; after every step both logs and all indexes must equal the model and the "
           "invariants are evaluated on every state of every recorded history. Histories with a leader that lost its log "
           "tail violate the property in the real code: recorded as known findings, re-confirmed on every run both in the "
-          "model (tail-loss configuration must produce a counterexample) and on the code."),
+          "model (tail-loss configuration must produce a counterexample) and on the code."
+          "  Leg R: 400 (quick) / 2300 (thorough) behaviours chosen by TLC from the protocol model are executed step by step against the real code; the real state must be the model's state after every step. Every fourth random history starts on a long-lived leader log (positions inside a later index page), and replica rounds also run while an append of the leader is parked before the copy of its payload."),
     note=("Trusted: TLC, Json module, the in-process transport (RPC bodies copied from app/storage/rpc/replica.go), "
           "fake shard/family/state-manager objects that only supply names. IsReady+Connect is one step; "
           "offline/online notifications not driven; one follower."),
@@ -109,7 +112,7 @@ CHECKS["C08"] = dict(
 
 CHECKS["C18"] = dict(
     module="Master",
-    technique="TLA+ model checking (TLC): exhaustive evaluation of the transcribed assignment function + all event sequences of the master state machine within bounds; trace validation of the real StateManager fed one discovery event at a time",
+    technique="TLA+ model checking (TLC): exhaustive evaluation of the transcribed assignment function + all event sequences of the master state machine within bounds; trace validation of the real StateManager fed one discovery event at a time + replay of TLC-generated behaviours (MasterGen, 5 nodes / 2 databases / 6 shards / rf 3) into the real StateManager; transient repository faults (read, first write, second write of an assignment) in model, generator and driver",
     text=("Part A transcribes assignReplicasToStorageNodes as a TLA+ operator; TLC evaluates it for every cluster size "
           "<=5, shard count <=8, replica factor, start index, replica shift and growth step (7200 cases, each growth "
           "under all 25 fresh random choices): exactly rf distinct live nodes, round-robin first replicas, existing "
@@ -118,7 +121,8 @@ CHECKS["C18"] = dict(
           "create/grow/drop and event processing (245k states quick) and checks, whenever all events are processed, "
           "online <=> some replica alive and leader = an alive replica. The real StateManager runs over an in-memory "
           "repository with the harness as discovery watcher; after every step the storage state, the stored "
-          "assignments and the live sets must equal the model (the code's random start/shift bound existentially)."),
+          "assignments and the live sets must equal the model (the code's random start/shift bound existentially)."
+          "  Leg R: behaviours of 140 / 200 steps chosen by TLC are executed against the real StateManager. Repository faults while one database-config event is handled are steps of the model (ProcessF) and injected by the in-memory repository; a handler that goes on after a failed read of the stored assignment (MCMaster_dev_readfault) must violate GrowKeepsExisting."),
     note=("Trusted: TLC, Json module, the in-memory repository and event feeder of the harness, the verif hook that calls "
           "processEvent synchronously. Event order = order of repository writes (what an etcd watch delivers)."),
     ref="DESIGN.md section 7 C18",
